@@ -502,6 +502,53 @@ func earlyExit(s: []int, t: string, n: int) => int {
 	return len(w)
 }
 
+type Base :struct {
+	id:   int
+	note: string
+	hist: []int
+}
+
+func Base.Describe() => string { return this.note + "#" + itoa(this.id) }
+func Base.Push(v: int) { this.hist = append(this.hist, v) }
+
+type Derived :struct {
+	Base
+	extra: string
+	cb:    func(s: string) => string
+}
+
+type Describer interface {
+	Describe() => string
+}
+
+type Multi interface {
+	Split(n: int) => (string, []int, *Node)
+}
+
+func Base.Split(n: int) => (string, []int, *Node) {
+	return this.note + itoa(n), append(this.hist, n), &Node{val: n, name: this.note}
+}
+
+type Strs :[]string
+
+func Strs.Join() => string {
+	r := ""
+	for _, x := range *this {
+		r += x
+	}
+	return r
+}
+
+func pick3(n: int, a: string, b: string, c: string) => string {
+	switch n % 3 {
+	case 0:
+		return a
+	case 1:
+		return b
+	}
+	return c
+}
+
 func c0(c: Closer) => int {
 	return len(c.Rows())
 }
@@ -627,6 +674,7 @@ func Generate(r Rand) *Driver {
 	g.kindOps()
 	g.formOps()
 	g.formOps2()
+	g.formOps3()
 	return g.emit()
 }
 
@@ -913,6 +961,32 @@ func (g *gen) formOps2() {
 	if g.has(kNode) {
 		n := func(i string) string { return S(kNode, i) }
 		g.add("struct copy through pointers", fmt.Sprintf("p, q := %s, %s\nif p != nil && q != nil && p != q {\nnx := p.next\n*p = *q\nif nx != nil && nx.rank < p.rank {\np.next = nx\n} else if p.next != nil && p.next.rank >= p.rank {\np.next = nil\n}\n}\nreturn hN(p)", n("a"), n("b")))
+	}
+}
+
+// formOps3: embedding, promoted methods, named slice types, multi-result
+// interface methods, function-typed fields, copy-modify-store of map values.
+func (g *gen) formOps3() {
+	S := g.slot
+	si := func(i string) string { return S(kSliceInt, i) }
+	str := func(i string) string { return S(kStr, i) }
+	g.add("embedded struct, promoted method and field", fmt.Sprintf("d := &Derived{extra: %s}\nd.note = %s\nd.id = b\nd.Push(c)\nd.hist = append(d.hist, %s...)\nif len(d.hist) > 40 {\nd.hist = d.hist[:4]\n}\n%s = d.Describe() + d.extra\n%s = d.hist\nif len(%s) > 120 {\n%s = \"\"\n}\nreturn hStr(%s) + hSI(%s)", str("b"), str("c"), si("b"), str("a"), si("a"), str("a"), str("a"), str("a"), si("a")))
+	g.add("embedded struct boxed as interface", fmt.Sprintf("d := &Derived{extra: \"x\"}\nd.note = %s\nx: Describer = d\ny: Describer = &d.Base\nr := x.Describe() + y.Describe()\nif len(r) > 150 {\nr = r[:20]\n}\n%s = r\nreturn hStr(r)", str("b"), str("a")))
+	g.add("function-typed struct field", fmt.Sprintf("pre := %s\nd := Derived{cb: func(s: string) => string {\nreturn pre + s\n}}\nr := d.cb(\"k\")\ne := d\nr = e.cb(r)\nif len(r) > 150 {\nr = r[:20]\n}\n%s = r\nreturn hStr(r)", str("b"), str("a")))
+	g.add("three results through an interface", fmt.Sprintf("bs := &Base{note: %s, hist: %s}\nm: Multi = bs\nx, y, z := m.Split(c)\n_, y2, _ := m.Split(b)\nif len(x) > 150 {\nx = x[:20]\n}\nif len(y) > 40 {\ny = y[:4]\n}\n%s = x\n%s = y\nreturn hStr(x) + hSI(y) + hSI(y2) + hN(z)", str("b"), si("c"), str("a"), si("a")))
+	g.add("named slice type with method", fmt.Sprintf("v := Strs{%s, %s}\nv = append(v, \"t\")\nw := v[1:]\nr := v.Join() + w.Join()\nif len(r) > 150 {\nr = r[:20]\n}\n%s = r\nreturn hStr(r)", str("b"), str("c"), str("a")))
+	g.add("value selected among call arguments", fmt.Sprintf("r := pick3(c, %s, %s+\"q\", itoa(b))\n%s = r\nreturn hStr(r)", str("b"), str("c"), str("a")))
+	if g.has(kMapIntPair) {
+		m := func(i string) string { return S(kMapIntPair, i) }
+		g.add("copy-modify-store of a map value", fmt.Sprintf("p, ok := %s[b%%8]\nif ok {\np.v = append(p.v, c)\nif len(p.v) > 30 {\np.v = nil\n}\np.s = p.s + \"m\"\nif len(p.s) > 60 {\np.s = \"\"\n}\n%s[b%%8] = p\n}\nreturn hMIP(%s)", m("a"), m("a"), m("a")))
+	}
+	if g.has(kMapIntStr) {
+		m := func(i string) string { return S(kMapIntStr, i) }
+		g.add("closures stored in a map", fmt.Sprintf("fm := make(map[int]func() => string)\nfor i := 0; i < 3; i++ {\nk := i\nv := %s[(b+i)%%16]\nfm[k] = func() => string {\nreturn v + itoa(k)\n}\n}\nr := \"\"\nfor i := 0; i < 3; i++ {\nr += fm[i]()\n}\ndelete(fm, 1)\nif len(r) > 150 {\nr = r[:20]\n}\n%s = r\nreturn hStr(r) + i64(len(fm))", m("a"), str("c")))
+	}
+	if g.has(kAny) {
+		x := func(i string) string { return S(kAny, i) }
+		g.add("type switch with many cases and reboxing", fmt.Sprintf("v := %s\nvar out: interface{}\nswitch t := v.(type) {\ncase int:\nout = itoa(t)\ncase string:\nout = []int{len(t), c}\ncase []int:\nout = hSI(t) %% 1000\ncase f64:\nout = int(t)\ndefault:\nout = v\n}\n%s = out\nreturn hA(out)", x("a"), x("b")))
 	}
 }
 
